@@ -27,7 +27,13 @@ CacheFailed(e) ==
   \cup (IF e.signed.dse_count = e.n_signed /\ e.signed.resp_count = e.n_signed /\ e.signed.dse_sum_ok /\ e.signed.resp_sum_ok
            /\ e.signed.subnets_sum = e.subnets_signed THEN {} ELSE {"C20_StatsMirror_Signed"})
   \cup (IF e.main.dse_count >= 0 /\ e.main.resp_count >= 0 /\ e.signed.dse_count >= 0 /\ e.signed.resp_count >= 0 THEN {} ELSE {"C20_NoUnderflow"})
-Failed(e) == IF e.e = "cache" THEN CacheFailed(e) ELSE
+\* an application holds the iterator of a lookup without reading it and makes another call: the call returns, the node lives, and
+\* the iterator then yields the values the storing peers sent (C06: every call gets its outcome; no call can starve another)
+UnreadFailed(e) ==
+     (IF e.returned /\ e.closest > 0 THEN {} ELSE {"C06_Terminates"})
+  \cup (IF e.node_hung \/ e.panicked THEN {"C06_NodeAlive"} ELSE {})
+  \cup (IF e.returned /\ e.items < 1 THEN {"C06_StreamComplete"} ELSE {})
+Failed(e) == IF e.e = "cache" THEN CacheFailed(e) ELSE IF e.e = "unread" THEN UnreadFailed(e) ELSE
      UNION {CallFailed(e, e.calls[i]) : i \in 1..Len(e.calls)}
   \cup (IF e.panicked \/ e.hung THEN {"C06_NodeAlive"} ELSE {})
   \* the request timeout (start 500 ms) adapts to observed round trips: without any reply slower than 500 ms it must not grow
